@@ -396,6 +396,11 @@ Proof.
 Qed.
 
 Ltac learn :=
+  (* (granularity * size written the other way round) *)
+  try match goal with
+      | H5 : (?g * ?s <? ?d) = false, H1 : (0 <? ?s) = true, H3 : S.width_ok ?g = true |- _ =>
+          lazymatch g with s => fail | _ => rewrite (Z.mul_comm g s) in * end
+      end;
   match goal with
   | H5 : (?s * ?g <? ?d) = false |- _ =>
       lazymatch goal with
@@ -404,7 +409,9 @@ Ltac learn :=
           lazymatch goal with
           | H3 : S.width_ok d = true |- _ =>
               lazymatch goal with
-              | H4 : S.width_ok g = true |- _ => pose proof (sram_atoms s d g H1 H2 H3 H4 H5)
+              | H4 : S.width_ok g = true |- _ =>
+                  pose proof (sram_atoms s d g H1 H2 H3 H4 H5);
+                  lazymatch g with s => idtac | _ => rewrite ?(Z.mul_comm g s) end
               end
           end
       end
@@ -460,7 +467,7 @@ Proof.
   assert (H5 : (s * gg <? dd) = false) by lia.
   pose proof (sram_atoms s dd gg Hs1 Hs2 Hd Hgg H5) as A. saturate.
   assert (Hdg : (dd <? gg) = false) by lia. assert (Hl : (0 <? Z.log2 s) = true) by lia. saturate.
-  destruct wr; (destruct Hg as [-> | [-> ->]]; norm; tidy;
+  destruct wr; (destruct Hg as [-> | [-> ->]]; norm; tidy; rewrite ?(Z.mul_comm gg s), ?(Z.mul_comm dd s);
     repeat match goal with H : bit_length ?x = Z.log2 _ |- _ => rewrite !H end;
     decide_all; reflexivity).
 Qed.
@@ -640,7 +647,7 @@ Ltac leaf :=
                      | _ : d = 8 \/ _ |- _ => fail
                      | _ => assert (d = 8 \/ d = 16 \/ d = 32 \/ d = 64) by (unfold B.legal_w in H; lia)
                      end
-                 end; exfalso; lia ].
+                 end; first [ exfalso; lia | do 2 f_equal; lia ] ].
 
 (* WishboneCSRBridge.__init__ on a csr.Interface (flipped or not) = Model.WbCsrBridge.construct: same refusals in
    the same order with the same exception class, and on acceptance the same published geometry - for ALL widths
@@ -1289,8 +1296,9 @@ Fixpoint adds_show (t : trace) (l : list (string * list pv * list (string * pv))
 Definition attr_cls (t : trace) (a : string) : string :=
   match last_set t slf a with Some o => cls_of o | None => ""%string end.
 
+Fixpoint tlen_kw (l : list (string * pv)) : nat := match l with [] => O | _ :: l' => S (tlen_kw l') end.
 Record structure := {
-  s_builder : list (string * pv);                 (* csr.Builder(addr_width=, data_width=) *)
+  s_builder : list (string * pv);                 (* csr.Builder(addr_width=, data_width=): the keywords, by name *)
   s_calls : list (string * pv * string * pv);     (* the calls on it: add(name, <class>(fields)) ..., as_memory_map() *)
   s_attrs : list string;                          (* classes of self._mode, _input, _output, _setclr *)
   s_members : list (pv * pv);                     (* wiring.Component.__init__(members) *)
@@ -1304,7 +1312,9 @@ Definition view_struct (t : trace) : comp structure :=
       | Some (_, [mm], _) =>
           match builder_of t mm, find_super_cls t slf with
           | Some b, Some (_, [YDict members]) =>
-              Ret {| s_builder := kw_of t b;
+              Ret {| s_builder := [("addr_width", kw_or_none "addr_width" (kw_of t b));
+                                   ("data_width", kw_or_none "data_width" (kw_of t b));
+                                   ("#keywords", YInt (Z.of_nat (tlen_kw (kw_of t b))))]%string;
                      s_calls := adds_show t (calls_on t b);
                      s_attrs := [attr_cls t "_mode"; attr_cls t "_input"; attr_cls t "_output"; attr_cls t "_setclr"];
                      s_members := members_show t members;
@@ -1331,7 +1341,7 @@ Definition out_action : pv :=
   YCon "class" [YStr "Peripheral.Output._FieldAction"; YTuple [YGlobal "csr.FieldAction"]; YDict []] [].
 Definition pins_of (x : pv) (n : Z) : pv := YDict [(YStr "pin", YList (repeat x (Z.to_nat n)))].
 Definition expected_struct (n a d : Z) : structure :=
-  {| s_builder := [("addr_width", YInt a); ("data_width", YInt d)]%string;
+  {| s_builder := [("addr_width", YInt a); ("data_width", YInt d); ("#keywords", YInt 2)]%string;
      s_calls :=
        [("add", YStr "Mode", "Peripheral.Mode", pins_of (YCon "csr.Field" [YGlobal "csr.action.RW"; pin_mode] []) n);
         ("add", YStr "Input", "Peripheral.Input", pins_of (YCon "csr.Field" [YGlobal "csr.action.R"; u1] []) n);
@@ -1360,7 +1370,7 @@ Ltac norm := lazy beta iota zeta delta [
   is_glob meth_recv super_init obj_is get_plain kw_or_none calls_on kw_of not_int_or getZ getB port_signature
   cls_access base_is find_super_cls specs_of builder_specs spec_builder place_of spec_as_memory_map builder_of
   mux_of spec_bridge spec_csr_signature gp_call gpW inj slf tr0 run view
-  cls_of fname resolve member_show members_show adds_show attr_cls view_struct
+  cls_of fname resolve member_show members_show adds_show attr_cls view_struct tlen_kw Z.of_nat Pos.of_succ_nat Pos.succ
   gen_gpio_Peripheral_init gen_gpio_Peripheral_class gen_gpio_Peripheral_init_default_input_stages
   gen_gpio_Peripheral_Mode_init gen_gpio_Peripheral_Mode_class gen_gpio_Peripheral_Input_init
   gen_gpio_Peripheral_Input_class gen_gpio_Peripheral_Output_init gen_gpio_Peripheral_Output_class
